@@ -97,6 +97,25 @@ def WriteInteger(output: BinaryIO, i: int):
     output.write(PackInteger(i))
 
 
+def PackSignedInteger(v):
+    """Signed LEB128, as used for the immediates of integer constants."""
+    output = []
+    while True:
+        b = v & 0x7F
+        v >>= 7
+        # Done once the remaining bits are just the sign extension of the
+        # last block
+        if (v == 0 and not (b & 0x40)) or (v == -1 and (b & 0x40)):
+            output.append(b)
+            break
+        output.append(b | 0b1000_0000)
+    return bytes(output)
+
+
+def WriteSignedInteger(output: BinaryIO, i: int):
+    output.write(PackSignedInteger(i))
+
+
 def PackFloat(v):
     return struct.pack("<f", v)
 
@@ -367,10 +386,13 @@ class Instruction:
 
     def WriteTo(self, output: BinaryIO):
         WriteByte(output, self.__opcode)
-        # TODO Handle non-integer arguments
         if self.__args:
             for arg in self.__args:
-                WriteInteger(output, arg)
+                if self.__opcode == opcodes["i32.const"]:
+                    # The immediate of an integer constant is signed
+                    WriteSignedInteger(output, arg)
+                else:
+                    WriteInteger(output, arg)
 
 
 class Code:
